@@ -654,4 +654,188 @@ theorem walk_pop_after_drop {g : Graph} (H : Hyp g) {w : Nat} {s s3 : State} {ne
       rw [hqy] at this
       exact k.a y hy ⟨_, this⟩
 
+/-! ## the functions of the loop -/
+
+theorem post_reset {g : Graph} (H : Hyp g) {w : Nat} {s s0 : State} (f : WorkerD → WorkerD) (hw : w < s0.workers.length)
+    (q : Quiet w s s0) (l : Loc g w s) (hp : ∀ d, (f d).path = [g.root])
+    (hpc : ∀ d, (f d).pc = d.pc ∨ (f d).pc.isTest = false) (hs0 : (s0.wd w).pc = (s.wd w).pc)
+    (evs : List Event) (fl : Flow) : Post g w s (s0.setWd w f, evs, fl) := by
+  have hr : relevant g w g.root = true := by unfold relevant; rw [H.top.1]; rfl
+  have l0 := q.loc l
+  refine ⟨q.fr.trans (fr_setWd w s0 _), loc_setWd _ hw l0 ?_, fun _ => walk_setWd _ hw ?_ ?_, ?_⟩
+  · intro x hx
+    rw [hp] at hx
+    have : x = g.root := by simpa using hx
+    rw [this]; exact ⟨H.wf.root_lt, hr⟩
+  · rw [hp]; exact Or.inr ⟨true, .one g.root⟩
+  · intro x hx
+    rw [hp] at hx
+    have : x = g.root := by simpa using hx
+    rw [this]; exact root_not_dropped H l0
+  · rcases hpc (s0.wd w) with h | h
+    · right; show ((s0.setWd w f).wd w).pc = _; rw [wd_setWd_eq s0 w f hw, h, hs0]
+    · left
+      intro n ph dir uid tag wait hh
+      have h' : ((s0.setWd w f).wd w).pc = .test n ph dir uid tag wait := hh
+      rw [wd_setWd_eq s0 w f hw] at h'
+      rw [h'] at h; simp [Pc.isTest] at h
+
+theorem post_test {g : Graph} {w : Nat} {s s0 : State} (f : WorkerD → WorkerD) (n : Nat) (ph : Phase) (dir : Dir)
+    (uid : String) (tag wt : Nat) (hw : w < s0.workers.length) (q : Quiet w s s0) (l : Loc g w s) (k : Walk g w s)
+    (hlast : (s.wd w).path.getLast? = some n) (hdown : dir = .down → PShape g (s.wd w).path true)
+    (hp : ∀ d, (f d).path = d.path) (hpc : ∀ d, (f d).pc = .test n ph dir uid tag wt)
+    (evs : List Event) (fl : Flow) : Post g w s (s0.setWd w f, evs, fl) := by
+  have q2 : Quiet w s (s0.setWd w f) := q.trans (quiet_setWd w s0 f hp)
+  refine ⟨q2.fr, q2.loc l, fun _ => q2.walk k, Or.inl ?_⟩
+  intro n' ph' dir' uid' tag' wait' hh
+  have h' : ((s0.setWd w f).wd w).pc = .test n' ph' dir' uid' tag' wait' := hh
+  rw [wd_setWd_eq s0 w f hw, hpc] at h'
+  cases h'
+  show ((s0.setWd w f).wd w).path.getLast? = some n ∧ (dir = .down → PShape g ((s0.setWd w f).wd w).path true)
+  rw [q2.path]; exact ⟨hlast, hdown⟩
+
+theorem afterTraverse_cl {g : Graph} (H : Hyp g) (w : Nat) (s : State) (next prev : Nat) (dir : Dir)
+    (hw : w < s.workers.length) (hcls : ClsIn g s) (l : Loc g w s) (k : Walk g w s)
+    (hlast : (s.wd w).path.getLast? = some next) (hdown : dir = .down → PShape g (s.wd w).path true) :
+    Post g w s (afterTraverse g s w next prev dir) := by
+  unfold afterTraverse
+  cases hd : runDecision g s next w with
+  | error e => exact Post.raise l [] e
+  | ok r =>
+    obtain ⟨run, s1, evs⟩ := r
+    have h1 : Same w s s1 := same_runDecision w g s next w run s1 evs hd
+    have l1 := h1.1.loc l
+    have k1 := h1.1.walk k
+    have hw1 : w < s1.workers.length := by rw [h1.1.wl]; exact hw
+    have hcls1 : ClsIn g s1 := fun n hn => by rw [h1.1.rl]; exact hcls n hn
+    have hlast1 : (s1.wd w).path.getLast? = some next := by rw [h1.1.path]; exact hlast
+    refine Post.of_same h1 ?_
+    cases dir with
+    | up =>
+      dsimp only
+      cases run with
+      | true =>
+        simp only [Bool.not_true, Bool.false_eq_true, if_false]
+        exact post_pop hw1 l1 k1 evs
+      | false =>
+        simp only [Bool.not_false, if_true]
+        have h2 : Same w s1 (dropParent g s1 prev next w) := quiet_setCr w s1 _ _ (fun _ => rfl)
+        exact Post.of_same h2 (post_pop (by rw [h2.1.wl]; exact hw1) (h2.1.loc l1) (h2.1.walk k1) evs)
+    | down =>
+      have hdn1 : PShape g (s1.wd w).path true := by rw [h1.1.path]; exact hdown rfl
+      dsimp only
+      cases run with
+      | true =>
+        simp only [if_true]
+        exact post_pop hw1 l1 k1 evs
+      | false =>
+        simp only [Bool.false_eq_true, if_false]
+        by_cases hc : isCleanupReady g s1 next w = true
+        · simp only [hc, if_true]
+          by_cases hpp : (!(g.node next).flat && (s1.wd w).unexplored) = true
+          · simp only [hpp, if_true]
+            exact post_reset H _ hw1 (Quiet.refl w s1) l1 (by intro _; rfl) (by intro _; exact Or.inl rfl) rfl evs .cont
+          simp only [hpp, Bool.false_eq_true, if_false]
+          obtain ⟨f1, f2, f3⟩ := drop_step H hcls1 l1 hlast1 hc
+          obtain ⟨g1, _, g3, _⟩ := dropAll_frame g next w (g.node next).setup s1
+          generalize List.foldl (fun s x => dropChild g s x.1 next w) s1 (g.node next).setup = sF at f1 f2 f3 g1 g3 ⊢
+          cases hr : reverseNode g sF next w with
+          | error e => exact ⟨f1, f2, fun h => by simp [raises] at h, Or.inr (by show (sF.wd w).pc = _; rw [g1 w])⟩
+          | ok r =>
+            obtain ⟨s3, evs2⟩ := r
+            have h3 : Same w sF s3 := same_reverseNode w g sF next w s3 evs2 hr
+            have hw3 : w < s3.workers.length := by rw [h3.1.wl, g3]; exact hw1
+            have l3 := h3.1.loc f2
+            have hpath : (s3.wd w).path = (s1.wd w).path := by rw [h3.1.path, g1 w]
+            refine ⟨f1.trans (h3.1.fr.trans (fr_setWd w s3 _)), loc_setWd _ hw3 l3 ?_, fun _ => ?_, Or.inr ?_⟩
+            · intro x hx; exact l3.pathOk x (List.dropLast_subset _ hx)
+            · exact walk_pop_after_drop H hw3 l1 k1 hlast1 hdn1 hc hpath
+                (fun c hdr => f3 c ((h3.1.dr w c).mp hdr))
+            · show ((popPath s3 w).wd w).pc = _
+              unfold popPath
+              rw [pc_setWd_path, h3.2, g1 w]
+        · simp only [hc, Bool.false_eq_true, if_false]
+          cases hp : pickChild g s1 next w with
+          | none => exact Post.raise l1 evs _
+          | some r =>
+            obtain ⟨c, s2⟩ := r
+            exact post_pushChild H hw1 l1 k1 hlast1 hdn1 hp evs
+
+theorem startTest_cl {g : Graph} (w : Nat) (s : State) (n : Nat) (ph : Phase) (dir : Dir)
+    (hw : w < s.workers.length) (l : Loc g w s) (k : Walk g w s)
+    (hlast : (s.wd w).path.getLast? = some n) (hdown : dir = .down → PShape g (s.wd w).path true) :
+    Post g w s (startTest g s n w ph dir) := by
+  unfold startTest
+  dsimp only
+  split
+  · refine post_test _ n ph dir ?uid ?tag 0 ?hw ?q l k hlast hdown ?hp ?hpc _ _
+    case hpc => intro _; rfl
+    case hw => exact hw
+    case q => exact (quiet_tag w s _).1
+    case hp => intro _; rfl
+  · have q : Quiet w s (({ s with nextTag := s.nextTag + 1 } : State).setNd n
+        (fun d => { d with results := d.results ++ [{ name := (g.node n).name, status := "UNKNOWN", uid := "", tag := s.nextTag }] })) :=
+      (quiet_tag w s _).1.trans (quiet_setNd w _ n _).1
+    refine post_test _ n ph dir ?uid2 ?tag2 0 ?hw ?q l k hlast hdown ?hp ?hpc _ _
+    case hpc => intro _; rfl
+    case hw => exact hw
+    case q => exact q
+    case hp => intro _; rfl
+
+theorem Post.evs {g : Graph} {w : Nat} {s a : State} {e : List Event} {f : Flow} (p : Post g w s (a, e, f)) (e' : List Event) :
+    Post g w s (a, e', f) := p
+
+theorem traverseNode_cl {g : Graph} (H : Hyp g) (w : Nat) (s : State) (next prev : Nat) (dir : Dir)
+    (hw : w < s.workers.length) (hcls : ClsIn g s) (l : Loc g w s) (k : Walk g w s)
+    (hlast : (s.wd w).path.getLast? = some next) (hdown : dir = .down → PShape g (s.wd w).path true) :
+    Post g w s (traverseNode g s w next prev dir) := by
+  unfold traverseNode
+  by_cases hocc : isOccupied g s next w = true
+  · simp only [hocc, if_true]
+    exact afterTraverse_cl H w s next prev dir hw hcls l k hlast hdown
+  · simp only [hocc, Bool.false_eq_true, if_false]
+    have hA : Same w s (pullLocations g (s.setNd next (fun d => { d with started := some w })) next) :=
+      (quiet_setNd w s next _).trans (same_pullLocations w g _ next)
+    cases hd : runDecision g (pullLocations g (s.setNd next (fun d => { d with started := some w })) next) next w with
+    | error e => exact Post.of_same hA (Post.raise (hA.1.loc l) [] e)
+    | ok r =>
+      obtain ⟨run, s1, evs⟩ := r
+      have h1 : Same w s s1 := hA.trans (same_runDecision w g _ next w run s1 evs hd)
+      have l1 := h1.1.loc l
+      have k1 := h1.1.walk k
+      have hw1 : w < s1.workers.length := by rw [h1.1.wl]; exact hw
+      have hcls1 : ClsIn g s1 := fun n hn => by rw [h1.1.rl]; exact hcls n hn
+      have hlast1 : (s1.wd w).path.getLast? = some next := by rw [h1.1.path]; exact hlast
+      have hdown1 : dir = .down → PShape g (s1.wd w).path true := by rw [h1.1.path]; exact hdown
+      refine Post.of_same h1 ?_
+      dsimp only
+      by_cases hrun : run = true
+      · subst hrun
+        simp only [if_true]
+        by_cases hroot : (g.node next).objectRoot = true
+        · simp only [hroot, if_true]
+          generalize hF : (fun (d : WorkerD) => { d with
+              preResults := (s1.nd next).results,
+              preName := "all.internal.stateless.noop.vms." ++ " ".intercalate (g.node next).objs ++ ".nets." ++
+                (g.worker w).swarm ++ "." ++ ((g.worker w).id.splitOn ".").getLast! }) = F
+          have h2 : Same w s1 (s1.setWd w F) := same_setWd w s1 F (fun d => by rw [← hF]) (fun d => by rw [← hF])
+          have h3 := startTest_cl (g := g) w (s1.setWd w F) next .pre dir (by rw [h2.1.wl]; exact hw1) (h2.1.loc l1) (h2.1.walk k1)
+            (by rw [h2.1.path]; exact hlast1) (by rw [h2.1.path]; exact hdown1)
+          rcases hst : startTest g (s1.setWd w F) next w .pre dir with ⟨s2, evs2, f⟩
+          rw [hst] at h3
+          exact Post.of_same h2 (h3.evs _)
+        · simp only [hroot, Bool.false_eq_true, if_false]
+          have h3 := startTest_cl (g := g) w s1 next .plain dir hw1 l1 k1 hlast1 hdown1
+          rcases hst : startTest g s1 next w .plain dir with ⟨s2, evs2, f⟩
+          rw [hst] at h3
+          exact h3.evs _
+      · simp only [hrun, Bool.false_eq_true, if_false]
+        have h2 : Same w s1 (finishTraverse s1 next w) := same_finishTraverse w s1 next w
+        have h3 := afterTraverse_cl H w (finishTraverse s1 next w) next prev dir (by rw [h2.1.wl]; exact hw1)
+          (fun n hn => by rw [h2.1.rl]; exact hcls1 n hn) (h2.1.loc l1) (h2.1.walk k1)
+          (by rw [h2.1.path]; exact hlast1) (by rw [h2.1.path]; exact hdown1)
+        rcases hat : afterTraverse g (finishTraverse s1 next w) w next prev dir with ⟨s2, evs2, f⟩
+        rw [hat] at h3
+        exact Post.of_same h2 (h3.evs _)
+
 end I2N.Trav.Clean
